@@ -9,6 +9,7 @@ import (
 	"net"
 	"runtime/debug"
 	"strings"
+	"sync/atomic"
 	"time"
 
 	"github.com/gofiber/fiber/v3"
@@ -94,12 +95,24 @@ type Conn struct {
 	R      *bytes.Reader
 	W      bytes.Buffer
 	Remote net.Addr
+	closed atomic.Bool // set by Close (Ctx.End, a hijacker): nothing written afterwards reaches the peer
 }
 
-func (c *Conn) Read(b []byte) (int, error)  { return c.R.Read(b) }
-func (c *Conn) Write(b []byte) (int, error) { return c.W.Write(b) }
-func (c *Conn) Close() error                { return nil }
-func (c *Conn) LocalAddr() net.Addr         { return &net.TCPAddr{IP: net.IPv4(127, 0, 0, 1), Port: 80} }
+func (c *Conn) Read(b []byte) (int, error) {
+	if c.closed.Load() {
+		return 0, net.ErrClosed
+	}
+	return c.R.Read(b)
+}
+
+func (c *Conn) Write(b []byte) (int, error) {
+	if c.closed.Load() {
+		return 0, net.ErrClosed
+	}
+	return c.W.Write(b)
+}
+func (c *Conn) Close() error        { c.closed.Store(true); return nil }
+func (c *Conn) LocalAddr() net.Addr { return &net.TCPAddr{IP: net.IPv4(127, 0, 0, 1), Port: 80} }
 func (c *Conn) RemoteAddr() net.Addr {
 	if c.Remote != nil {
 		return c.Remote
